@@ -13,6 +13,7 @@ Definition pinned_dump_seq : list string := [
   "get:MinidumpMemoryList";
   "get:MinidumpMemory64List";
   "get:MinidumpMiscInfo";
+  "unified:memory64_list.take().map(UnifiedMemoryList::Memory64).or_else(||memory_list.take().map(UnifiedMemoryList::Memory))";
   "get:MinidumpThreadList";
   "print:thread_list(output,unified_memory.as_ref(),system_info.as_ref(),misc_info.as_ref(),brief)";
   "get:MinidumpModuleList";
